@@ -61,6 +61,15 @@ def _kind_of(o):
     return ("opaque", None)
 
 
+def _sections_by_name_view(o):
+    try:
+        from richchk.model.chk_section_name import ChkSectionName
+
+        return tuple((n.name, len(o.get_sections_by_name(n))) for n in ChkSectionName)
+    except Exception as ex:  # noqa: BLE001
+        return ("unavailable", type(ex).__name__)
+
+
 def snap(o, depth=0, seen=None, memo=None):
     """structural, order-preserving (lists) / order-free (sets, dicts) canonical form.  `memo` (id -> form) may be
     shared by the snapshots of ONE pass, during which nothing runs that could change an object: values that share
@@ -100,6 +109,10 @@ def snap(o, depth=0, seen=None, memo=None):
             r = ("bytearray", bytes(o))
         elif kind == "dc":
             r = (t.__name__, tuple((n, snap(getattr(o, n), d, seen, memo)) for n in names))
+            if hasattr(t, "get_sections_by_name"):
+                # what the map ANSWERS through its public look-up (a cached name index is state too, even though it
+                # is not a dataclass field): how many sections it reports per name
+                r = r + (("sections-by-name", _sections_by_name_view(o)),)
         else:
             r = (t.__name__, tuple(sorted((k2, repr(snap(v, d, seen, memo))) for k2, v in vars(o).items() if k2 not in ("log", "_log", "_LOG"))))
     finally:
